@@ -6948,6 +6948,13 @@ hawk_val_t* hawk_rtx_evalcall (
 								ADJERR_LOC (rtx, &call->loc);
 							}
 						}
+						else if (hawk_rtx_geterrnum(rtx) == HAWK_ENOMEM)
+						{
+							/* the target can be referenced but memory ran out while doing so.
+							 * don't drop the value silently */
+							n = -1;
+							ADJERR_LOC (rtx, &call->loc);
+						}
 					}
 				}
 
